@@ -20,6 +20,15 @@ type c04sCase struct {
 	Cuts    []int     `json:"write_cuts"`
 	GapUs   int       `json:"gap_us"`
 	Prelude kit.Hex   `json:"earlier_connection_sent"` // bytes an earlier connection sent before it hung up (may end mid-frame)
+	// Unsupported[i]: frame i carries message ID 0x0900 (no handler: no reply, the not-supported callback) instead of 0x0200
+	Unsupported []bool `json:"frame_has_unsupported_id,omitempty"`
+}
+
+func (c c04sCase) msgID(i int) uint16 {
+	if i < len(c.Unsupported) && c.Unsupported[i] {
+		return 0x0900
+	}
+	return 0x0200
 }
 
 func genC04Socket(t *rapid.T) c04sCase {
@@ -38,7 +47,8 @@ func genC04Socket(t *rapid.T) c04sCase {
 			}
 		}
 		c.Bodies = append(c.Bodies, b)
-		total += len(frame(id, 0x0200, uint16(i), b))
+		c.Unsupported = append(c.Unsupported, i > 0 && rapid.IntRange(0, 3).Draw(t, "unsupported") == 0)
+		total += len(frame(id, c.msgID(i), uint16(i), b))
 	}
 	for i := 0; i < rapid.IntRange(0, 12).Draw(t, "ncuts"); i++ {
 		c.Cuts = append(c.Cuts, rapid.IntRange(1, total-1).Draw(t, "cut"))
@@ -56,8 +66,15 @@ func checkC04Socket(c c04sCase, _ *kit.Collector) kit.Result {
 	res := kit.Result{Labels: []string{"socket_stream"}}
 	id := identity{Digits: "13800130003", V2019: c.V2019}
 	var stream []byte
+	var answered []int // indices of the frames that get a reply
 	for i, b := range c.Bodies {
-		stream = append(stream, frame(id, 0x0200, uint16(i), b)...)
+		stream = append(stream, frame(id, c.msgID(i), uint16(i), b)...)
+		if c.msgID(i) == 0x0200 {
+			answered = append(answered, i)
+		}
+	}
+	if len(answered) < len(c.Bodies) {
+		res.Labels = append(res.Labels, "unsupported_ids_in_between")
 	}
 	steps := []Step{{Op: "dial"}}
 	prev := 0
@@ -70,7 +87,7 @@ func checkC04Socket(c c04sCase, _ *kit.Collector) kit.Result {
 			prev = cut
 		}
 	}
-	steps = append(steps, Step{Op: "wait_frames", N: len(c.Bodies), DeadlineMs: 8000}, Step{Op: "pause", PauseUs: 20000}, Step{Op: "close", Mode: "fin"})
+	steps = append(steps, Step{Op: "wait_frames", N: len(answered), DeadlineMs: 8000}, Step{Op: "pause", PauseUs: 20000}, Step{Op: "close", Mode: "fin"})
 	actors := []Actor{{Name: "t", Kind: "terminal", Steps: steps}}
 	if len(c.Prelude) > 0 {
 		res.Labels = append(res.Labels, "after_a_connection_that_ended_mid_frame")
@@ -89,16 +106,16 @@ func checkC04Socket(c c04sCase, _ *kit.Collector) kit.Result {
 	}
 	for _, e := range h.Events {
 		if e.Kind == "timeout" {
-			res.Err = fmt.Errorf("SOFT %s (%d replies for %d frames)", e.Note, len(frames), len(c.Bodies))
+			res.Err = fmt.Errorf("SOFT %s (%d replies for %d frames that require one)", e.Note, len(frames), len(answered))
 			return res
 		}
 	}
-	if len(frames) != len(c.Bodies) {
-		res.Err = kit.Fail("%d replies for %d frames sent over %d writes", len(frames), len(c.Bodies), len(c.Cuts)+1)
+	if len(frames) != len(answered) {
+		res.Err = kit.Fail("%d replies for %d frames that require one (of %d frames sent over %d writes)", len(frames), len(answered), len(c.Bodies), len(c.Cuts)+1)
 		return res
 	}
 	for i, f := range frames {
-		if f.ID != 0x8001 || len(f.Body) != 5 || int(ref.BE16(f.Body)) != i || int(f.Serial) != i {
+		if f.ID != 0x8001 || len(f.Body) != 5 || int(ref.BE16(f.Body)) != answered[i] || int(f.Serial) != i {
 			res.Err = kit.Fail("reply %d: id %#04x body %x platform serial %d", i, f.ID, f.Body, f.Serial)
 			return res
 		}
@@ -106,12 +123,16 @@ func checkC04Socket(c c04sCase, _ *kit.Collector) kit.Result {
 	// the read callbacks saw exactly the frames sent, in order
 	k := 0
 	for _, e := range h.Events {
-		if e.Kind == "cb_read" && e.Conn > 1 && e.Key == id.key() {
+		if (e.Kind == "cb_read" || e.Kind == "cb_unsupported") && e.Key == id.key() {
 			if k >= len(c.Bodies) {
 				res.Err = kit.Fail("more messages delivered than frames sent")
 				return res
 			}
-			want := frame(id, 0x0200, uint16(k), c.Bodies[k])
+			if (e.Kind == "cb_unsupported") != (c.msgID(k) == 0x0900) {
+				res.Err = kit.Fail("message %d (id %#04x) reached the callback %q", k, c.msgID(k), e.Kind)
+				return res
+			}
+			want := frame(id, c.msgID(k), uint16(k), c.Bodies[k])
 			if !bytes.Equal(e.Data, want) || !bytes.Equal(e.Body, c.Bodies[k]) {
 				res.Err = kit.Fail("message %d delivered to the read callback differs from the frame sent", k)
 				return res
